@@ -134,6 +134,44 @@ class Obligations(object):
         for name, g, site in goals:
             self.prove(name, g, assumptions, v, site=site, lemmas=lemmas)
 
+    def prove_chain(self, goals, assumptions, v):
+        """discharge [(name, goal, site)] in the given (dependency) order on one incremental solver; every goal that was
+        proved becomes an assumption for the later ones (sound: it holds under the same assumptions), which keeps each
+        query local to one net / one cycle"""
+        if not goals:
+            return
+        s = z3.Solver()
+        s.set('timeout', self.timeout_ms)
+        for a in assumptions:
+            s.add(a)
+        for name, g, site in goals:
+            self.n += 1
+            if z3.is_true(g):
+                self.unsat += 1
+                continue
+            s.push()
+            s.add(z3.Not(g))
+            t0 = time.time()
+            r = s.check()
+            self.solver_s += time.time() - t0
+            if r == z3.unsat:
+                s.pop()
+                self.unsat += 1
+                s.add(g)
+                if self.sample is None:
+                    self.sample = {'obligation': name, 'result': 'unsat', 'chain': True}
+                continue
+            if r == z3.unknown:
+                s.pop()
+                self.unknown.append(name)
+                continue
+            m = s.model()
+            cex = {'property': self.prop, 'obligation': name, 'site': site or name, 'case': self.case}
+            if v is not None:
+                cex['model'] = v.model_values(m)
+            self.sat.append(cex)
+            s.pop()
+
     def fact(self, name, ok, site=None, detail=None):
         """a concrete (structural) predicate on the real code's result; False is a violation candidate"""
         self.n += 1
@@ -232,7 +270,8 @@ def _worker(arg):
     try:
         import pyrtl
         pyrtl.reset_working_block()
-        timeout = int(os.environ.get('VERIF_QUERY_TIMEOUT_MS', '20000' if _TIER == 'quick' else '120000'))
+        dflt = getattr(_MOD, 'TIMEOUT_MS', {}).get(_TIER, 20000 if _TIER == 'quick' else 120000)
+        timeout = int(os.environ.get('VERIF_QUERY_TIMEOUT_MS', str(dflt)))
         ob = Obligations(_MOD.PROP, case, timeout)
         from . import sym
         for k in sym.STATS:
@@ -404,6 +443,8 @@ def main(mod, tier, seed):
     if level == 'translation_validation':
         cov['programs'] = max(1, len(good))
         cov['disagreements_checked'] = replayed
+    slow = sorted(good, key=lambda r: -r.get('wall_s', 0))[:5]
+    cov['slowest_cases'] = [{'case': r['case'], 'wall_s': round(r['wall_s'], 1)} for r in slow]
     notes = sorted(set(n for r in good for n in r.get('notes', [])))
     if notes:
         cov['notes'] = notes[:40]
